@@ -47,7 +47,7 @@ def unit_public():
     for n in (0, 63, 64, 66):
         hs.append(Harness(f"verify_short_{n}", ["C04", "C12"], complete=False, bound=f"payload length {n}", functions=[f"{P}::unseal"]))
     return Unit(
-        name="v4_public", members=["paseto-core", "paseto-v4"], package="paseto-v4",
+        name="v4_public", group="v4", members=["paseto-core", "paseto-v4"], package="paseto-v4",
         inject=[(P, ["units/common/pae_stub.rs", "units/v4/public.rs"])],
         patches=MODELS_FULL, harness_path="core::public::verif",
         kani_flags=["-Z", "stubbing", "--no-assertion-reach-checks"], no_default_features=True, features=["signing"],
@@ -63,7 +63,7 @@ ASSUME_PASERK = ASSUME[:3] + [
 
 def paserk_unit(name, file, src, path, feats, hs, assume):
     return Unit(
-        name=name, members=["paseto-core", "paseto-v4"], package="paseto-v4",
+        name=name, group="v4", members=["paseto-core", "paseto-v4"], package="paseto-v4",
         inject=[(file, ["units/common/pae_stub.rs", src])],
         patches=MODELS_FULL, harness_path=path,
         kani_flags=["-Z", "stubbing", "--no-assertion-reach-checks"], no_default_features=True, features=feats,
@@ -154,7 +154,7 @@ def unit_local():
     for n in (0, 31, 63, 64, 66):
         hs.append(Harness(f"unseal_short_{n}", ["C04", "C12"], complete=False, bound=f"payload length {n}", functions=[f"{L}::unseal"]))
     return Unit(
-        name="v4_local", members=["paseto-core", "paseto-v4"], package="paseto-v4",
+        name="v4_local", group="v4", members=["paseto-core", "paseto-v4"], package="paseto-v4",
         inject=[(L, ["units/common/pae_stub.rs", "units/v4/local.rs"])],
         patches=MODELS, harness_path="core::local::verif",
         kani_flags=["-Z", "stubbing", "--no-assertion-reach-checks"], no_default_features=True, features=["encrypting"],
